@@ -30,6 +30,8 @@ std::string gen_font(Rng &r, bool allow_big = true);
 // storage faults
 Fault gen_store_fault(Rng &r, const FontImage &fi);
 Fault gen_file_fault(Rng &r, const FontImage &fi);
+Fault gen_code_fault(Rng &r, const FontImage &fi);
+Fault gen_loop_fault(Rng &r, const FontImage &fi);
 void gen_faults(Rng &r, const FontImage &fi, int source, std::vector<Fault> &out, int maxn = 4);
 std::vector<u32> sample_cps(Rng &r, const std::string &font, size_t n);
 
